@@ -9,11 +9,10 @@ real `Report::update` / `RelayLatencies::{update_relay, merge, get}` (cfg-guarde
 iroh/src/net_report/report.rs, re-exported by iroh::verif_hooks_netrep) and the report is
 compared field by field after every step with the expectation TLC printed.
 
-Mutation self-test (recorded 2026-09-22): in report.rs `Report::update`, QadIpv4 arm, replace the
-`else { self.global_v4 = Some(ipp); }` rule by always overwriting `self.global_v4 = Some(ipp)`
-after the comparison ("later observation overwrites global_v4", DESIGN §12) -> VIOLATION
-(global_v4: expected a, got b, sequence qad4(a), qad4(b)); reverted -> exit 0.  A second
-mutation (`update_relay` keeps the larger latency) -> VIOLATION on relay_latency and on merge.
+Mutation self-test (2026-09-22): in report.rs `Report::update`, QadIpv4 arm, `self.global_v4 =
+Some(ipp);` added after the if/else ("later observation overwrites global_v4", DESIGN §12)
+-> exit 1, `VIOLATION ... Report::update deviates from the spec at step 2: global_v4 expected a,
+got b`; undone -> exit 0.
 """
 META = {
     "level": "model_checking",
